@@ -411,6 +411,9 @@ func c07Bounds(r *fw.Rand) *geom.Bounds {
 	if r.Bool() {
 		l = geom.XYZ
 	}
+	if r.Chance(1, 4) {
+		l = []geom.Layout{geom.XYM, geom.XYZM}[r.Intn(2)]
+	}
 	n := l.Stride()
 	args := make([]float64, 2*n)
 	// RFC 7946 section 5.2: a bounding box that crosses the antimeridian has its
@@ -441,10 +444,19 @@ func boundsEq(a, b *geom.Bounds) string {
 		}
 		return fmt.Sprintf("one bbox is nil (%v vs %v)", a == nil, b == nil)
 	}
-	if a.Layout() != b.Layout() {
-		return fmt.Sprintf("bbox layout %s vs %s", a.Layout(), b.Layout())
+	// a GeoJSON bbox has 4 or 6 numbers (RFC 7946 section 5): of a box with an M
+	// range the X, Y (and Z) ranges are what is written and what comes back
+	wantL := a.Layout()
+	switch wantL {
+	case geom.XYM:
+		wantL = geom.XY
+	case geom.XYZM:
+		wantL = geom.XYZ
 	}
-	for i := 0; i < a.Layout().Stride(); i++ {
+	if wantL != b.Layout() {
+		return fmt.Sprintf("bbox layout %s (from a %s box) vs %s", wantL, a.Layout(), b.Layout())
+	}
+	for i := 0; i < wantL.Stride(); i++ {
 		if a.Min(i) != b.Min(i) || a.Max(i) != b.Max(i) {
 			return fmt.Sprintf("bbox dimension %d [%v,%v] vs [%v,%v]", i, a.Min(i), a.Max(i), b.Min(i), b.Max(i))
 		}
